@@ -86,7 +86,7 @@ def entropy_contract(form, keep_inf, have_val, normalize):
         out = []
         code_sums = list(eng.sums)
         if not isinstance(res, Arr):
-            return [("result_is_array", False, "P")]
+            return [("result_is_array", False, "S")]
         out.append(("one_value_per_diagram", num_eq(res.shape[0], nd), "P"))
         for i, (ln, n) in enumerate(spec(a)):
             # on a normal return every length is positive (the raises clause covers the other direction)
